@@ -95,6 +95,11 @@ impl ModuleLoader {
                                 known_globals.insert(name.clone());
                             }
                         }
+                        aelys_syntax::ImportKind::Symbols(symbols) => {
+                            for symbol in symbols {
+                                known_globals.insert(symbol.clone());
+                            }
+                        }
                         aelys_syntax::ImportKind::Module { alias: Some(_) } => {
                             let module_alias = self.get_module_alias(nested_needs);
                             for name in module_info.exports.keys() {
@@ -107,7 +112,6 @@ impl ModuleLoader {
                                 }
                             }
                         }
-                        _ => {}
                     }
                 }
             }
